@@ -217,14 +217,15 @@ fn main() {
     let mut s = Sink::new();
     run_all(9, &mut s);
     run_inf_bounds(&mut s);
-    if tier == Tier::Thorough {
+    {
+        let _ = tier;
         // redundancy check of the small-scope argument: a longer chain must not change anything
         run_all(11, &mut s);
     }
     s.sample(json!({"type":"i32","a":{"Two":[2,5]},"b":{"Upper":4},"calls":["intersects","intersects(rev)","includes","is_included_in"]}));
     s.sample(json!({"type":"f64","a":{"Lower":3},"probe":"+0.0 (value index 4)","calls":["contains","RangeBounds::contains","start_bound","end_bound"]}));
     s.sample(json!({"type":"&str","a":{"Two":[1,1]},"b":{"Two":[1,6]},"note":"degenerate vs shared endpoint"}));
-    rep.rule = "every interval of the three kinds with bounds in the inner positions of a 9-chain (thorough: also 11-chain) x every ordered pair x every probe value (outer positions included), for i32,u8,f64(+-0, subnormal, +-inf probes),f32,char,&str,String; plus float two-sided intervals with infinite bounds; a case is distinct by (kinds, observed results, expected relations)".into();
+    rep.rule = "every interval of the three kinds with bounds in the inner positions of a 9-chain and again of an 11-chain (redundancy check of the small-scope argument) x every ordered pair x every probe value (outer positions included), for i32,u8,f64(+-0, subnormal, +-inf probes),f32,char,&str,String; plus float two-sided intervals with infinite bounds; a case is distinct by (kinds, observed results, expected relations)".into();
     rep.assume("parametricity: predicates inspect T only through comparisons, so a chain realising all order types of <=4 bounds + 1 probe decides all totally ordered T (DESIGN §5)");
     rep.assume("NaN bounds are outside the property's quantifier and are not enumerated");
     rep.require(s.distinct() >= 20, "fewer than 20 distinct (kind, outcome) classes: vacuous");
